@@ -17,7 +17,7 @@ import (
 // runs in a -race build of vmon, whose only verdict is the race log.
 
 var (
-	c13reRaceFrame = regexp.MustCompile(`(?m)^\s*(github\.com/google/wuffs/[^\s(]+)\(`)
+	c13reRaceFrame = regexp.MustCompile(`(?m)^\s+(github\.com/google/wuffs/\S+?)\(\)\s*$`)
 )
 
 // c13raceBlocks splits a race log into "WARNING: DATA RACE" blocks and returns
@@ -72,21 +72,32 @@ func init() {
 			cpu = 7200
 		}
 		o := drv.ChildOpts{CPUSec: cpu, WallSec: 6000, CrashIsViol: true, CrashSigPfx: "crash:"}
-		r.RunShards(bin, "C13", 16, []string{"C13"}, o)
-
-		if wantRace {
+		// The -race leg starts as soon as its binary is built and runs next to
+		// the 16 ordinary shards.
+		logBase := filepath.Join(r.Scratch, "race")
+		nsh := 4
+		if r.Thorough() {
+			nsh = 16
+		}
+		raceDone := make(chan struct{})
+		go func() {
+			defer close(raceDone)
+			if !wantRace {
+				return
+			}
 			b := <-raceCh
 			if b.err != nil {
-				drv.Fatal("%v", b.err)
+				r.Inconclusive(fmt.Sprintf("race build: %v", b.err))
+				return
 			}
-			logBase := filepath.Join(r.Scratch, "race")
 			ro := drv.ChildOpts{CPUSec: cpu, WallSec: 6000, CrashIsViol: true, CrashSigPfx: "crash(race-build):",
 				Env: []string{"GORACE=halt_on_error=0 log_path=" + logBase, "C13_RACE=1"}}
-			nsh := 4
-			if r.Thorough() {
-				nsh = 16
-			}
 			r.RunShards(b.bin, "C13race", nsh, []string{"C13"}, ro)
+		}()
+		r.RunShards(bin, "C13", 16, []string{"C13"}, o)
+		<-raceDone
+
+		if wantRace {
 			files, _ := filepath.Glob(logBase + ".*")
 			sort.Strings(files)
 			blocks := 0
